@@ -76,7 +76,14 @@ def shard(ctx):
         budget = P["budget"] if kind != "zp.apply" else max(600, P["budget"] // 4)
         if opt.get("small"):
             budget = max(400, budget // 4)
-        muts = faults.mutations(data, rng, budget, big_endian=opt.get("big_endian", False), text=opt.get("text", False), dense_limit=opt.get("dense_limit", 1536), cap=cap)
+        focus = []
+        if opt.get("patch"):
+            # the head of every chunk (size, tag, SQPK command header / directory name length), wherever it lies in the file
+            pos = 12
+            while pos + 12 <= len(data):
+                focus.append((pos, pos + 48))
+                pos += 12 + struct.unpack_from(">I", data, pos)[0]
+        muts = faults.mutations(data, rng, budget, big_endian=opt.get("big_endian", False), text=opt.get("text", False), dense_limit=opt.get("dense_limit", 1536), cap=cap, focus=focus)
         if opt.get("patch"):
             n = len(data)
             faults.run_batch(ctx, kind, data, muts, label=lab, must_not_be_ok=lambda m, n=n: m[1] == 0 and m[0] < n - 4)
